@@ -575,7 +575,10 @@ func HarnessFault() {
 		zz.Assert(err == nil, "fault/next-update-succeeds")
 	}
 	if rtx != nil {
+		zzDumpSoft, zzDumpBroken = finalSync, false
 		d, p := zzDumpCatch(rtx)
+		p = p || zzDumpBroken
+		zzDumpSoft = false
 		zz.AssertUnless(!p, finalSync, "fault/reader-usable-later", "C08/final-sync-failure-frees-reader-pages")
 		if !p {
 			zz.AssertUnless(zzSameKVs(d, rdump), finalSync, "fault/reader-snapshot-later", "C08/final-sync-failure-frees-reader-pages")
